@@ -53,6 +53,15 @@ def items(tier):
     for key in ("rate|x**2", "rate|gate", "rate|cos(x)/p", "rate|abs(x)"):
         its.append({"key": f"api-reuse|{key}", "kind": "api-reuse", "name": key, "spec": dict(models.rate_specs())[key], "tier": tier,
                     "sample": {"rate": key, "what": "one CodeGenerator instance, scheme() called for every delta / stiff set in sequence"}})
+    # every ordered list of 1..3 distinct schemes in ONE get_code call, with a non-default delta: what a scheme function computes must
+    # not depend on which other schemes were requested next to it, or in which order
+    import itertools as _it
+    for key in ("rate|x**2", "rate|gate", "rate|cos(x)/p", "rate|fhn"):
+        sp = dict(models.rate_specs())[key]
+        for r in (1, 2, 3):
+            for lst in _it.permutations(models.SCHEMES, r):
+                its.append({"key": f"scheme-list|{key}|{'+'.join(lst)}", "kind": "scheme-list", "name": key, "spec": sp, "schemes": list(lst), "tier": tier,
+                            "sample": {"rate": key, "scheme_list": list(lst), "delta": 0.5}})
     for key, sp in pair_specs():
         for delta in DELTAS:
             its.append({"key": f"{key}|delta={delta!r}", "kind": "rate", "name": key, "spec": sp, "delta": delta, "tier": tier,
@@ -119,6 +128,13 @@ def run_item(item):
     res["states"] = 1
     if item["kind"] == "api-reuse":
         run_api_reuse(item, res)
+        return res
+    if item["kind"] == "scheme-list":
+        sp = item["spec"]
+        stiff = [models.Ref(sp).states[0]]
+        res["states"] = 0
+        models.run_model_item({"specs": [[item["key"], sp]]}, res, ID, backends=("numpy", "c", "jax"), functions=tuple(item["schemes"]),
+                              opts={"scheme": list(item["schemes"]), "delta": 0.5, "stiff_states": stiff})
         return res
     key, sp, delta, tier = item["name"], item["spec"], item["delta"], item.get("tier", "quick")
     text = models.spec_text(sp)
